@@ -175,9 +175,11 @@ pub struct OpDef {
     pub f: fn(&Input, &mut Out),
 }
 
-const OVERLAY_FAMS: &[&str] = &["rects", "lattice", "circles", "combs", "starholes", "blobs", "mantissa"];
-const POLY_FAMS: &[&str] = &["rects", "lattice", "circles", "combs", "starholes", "blobs", "mantissa"];
+const OVERLAY_FAMS: &[&str] = &["rects", "lattice", "circles", "combs", "starholes", "blobs", "tiles", "mantissa"];
+const POLY_FAMS: &[&str] = &["rects", "lattice", "circles", "combs", "starholes", "blobs", "tiles", "mantissa"];
 const VALID_FAMS: &[&str] = &["lattice", "circles", "combs", "starholes", "blobs"];
+/// non-overlapping members that may share edges (tilings): fine for triangulation and stitching
+const TILING_FAMS: &[&str] = &["lattice", "circles", "combs", "starholes", "blobs", "tiles"];
 const POINT_FAMS: &[&str] = &["cloud", "rects", "starholes", "blobs", "mantissa", "circles"];
 const ANY: &[&str] = &["*"];
 
@@ -207,7 +209,7 @@ pub static OPS: &[OpDef] = &[
     op!("unary_union", OVERLAY_FAMS, false, true, |i, o| w_mpoly(o, &unary_union(i.a.0.iter().chain(i.b.0.iter())))),
     op!("unary_union_multi", OVERLAY_FAMS, false, false, |i, o| w_mpoly(o, &unary_union([&i.a, &i.b]))),
     // ---- hash-map users
-    op!("stitch_triangulation", VALID_FAMS, true, false, |i, o| match stitch_input(i).stitch_triangulation() {
+    op!("stitch_triangulation", TILING_FAMS, true, false, |i, o| match stitch_input(i).stitch_triangulation() {
         Ok(mp) => {
             o.tag(1);
             w_mpoly(o, &mp)
@@ -234,19 +236,46 @@ pub static OPS: &[OpDef] = &[
         }
         Err(e) => w_dbg(o, &e),
     }),
-    op!("constrained_outer_triangulation", VALID_FAMS, true, false, |i, o| match geo::TriangulateDelaunay::constrained_outer_triangulation(&i.a, Default::default()) {
+    op!("constrained_outer_triangulation", TILING_FAMS, true, false, |i, o| match geo::TriangulateDelaunay::constrained_outer_triangulation(&i.a, Default::default()) {
         Ok(t) => {
             o.len(t.len());
             t.iter().for_each(|t| w_tri(o, t))
         }
         Err(e) => w_dbg(o, &e),
     }),
-    op!("unconstrained_triangulation", VALID_FAMS, true, false, |i, o| match geo::TriangulateDelaunay::unconstrained_triangulation(&i.a) {
+    op!("unconstrained_triangulation", TILING_FAMS, true, false, |i, o| match geo::TriangulateDelaunay::unconstrained_triangulation(&i.a) {
         Ok(t) => {
             o.len(t.len());
             t.iter().for_each(|t| w_tri(o, t))
         }
         Err(e) => w_dbg(o, &e),
+    }),
+    op!("constrained_triangulation_members", TILING_FAMS, true, false, |i, o| {
+        // members as a MultiPolygon (inner triangulation), as a slice of polygons (outer), and
+        // as the triangles of an earcut tiling
+        match geo::TriangulateDelaunay::constrained_triangulation(&i.a, Default::default()) {
+            Ok(t) => {
+                o.len(t.len());
+                t.iter().for_each(|t| w_tri(o, t))
+            }
+            Err(e) => w_dbg(o, &e),
+        }
+        let v: Vec<Polygon<f64>> = i.a.0.iter().take(40).cloned().collect();
+        match geo::TriangulateDelaunay::constrained_outer_triangulation(&v, Default::default()) {
+            Ok(t) => {
+                o.len(t.len());
+                t.iter().for_each(|t| w_tri(o, t))
+            }
+            Err(e) => w_dbg(o, &e),
+        }
+        let tris: Vec<Triangle<f64>> = stitch_input(i).into_iter().take(60).collect();
+        match geo::TriangulateDelaunay::constrained_outer_triangulation(&tris, Default::default()) {
+            Ok(t) => {
+                o.len(t.len());
+                t.iter().for_each(|t| w_tri(o, t))
+            }
+            Err(e) => w_dbg(o, &e),
+        }
     }),
     op!("spade_constrained_triangulation", VALID_FAMS, true, false, |i, o| {
         use geo::TriangulateSpade;
